@@ -258,6 +258,10 @@ def wl_spelling(ctx, R, probe, rng, tz, zones):
         variant.append('folded')
     lines.append(rline)
     text = '\n'.join(lines)
+    if 'unfold' not in opts and len(lines) > 1 and rng.random() < .3:
+        # without unfold the text is split on any blank: the parts may stand on one line
+        text = rng.choice([' ', '  ', '\t', ' \n']).join(lines)
+        variant.append('one-line')
     if rng.random() < .1:
         opts['cache'] = True
         variant.append('cache')
